@@ -10,7 +10,7 @@ class NoSemantics(Exception):
 
 
 OPNAMES = {"add", "sub", "mul", "truediv", "floordiv", "mod", "pow", "max", "min", "eq", "ne", "lt", "le", "gt", "ge", "and_", "or_", "xor",
-           "logaddexp", "neg", "abs", "exp", "log", "sqrt", "log1p", "tanh", "atanh", "sigmoid", "invert", "reciprocal", "pos", "safesub", "safediv",
+           "logaddexp", "matmul", "neg", "abs", "exp", "log", "sqrt", "log1p", "tanh", "atanh", "sigmoid", "invert", "reciprocal", "pos", "safesub", "safediv",
            "sample"}
 REDUCTIONS = {"sum": "sum", "prod": "prod", "amax": "amax", "amin": "amin", "all": "all", "any": "any", "logsumexp": "logsumexp",
               "mean": "mean", "var": "var", "std": "std", "argmax": "argmax", "argmin": "argmin"}
